@@ -1,5 +1,5 @@
 (* Lemmas about Model/Headers.v (property C09). *)
-From Coq Require Import List NArith Bool Lia.
+From Coq Require Import List NArith Bool Lia Arith PeanoNat.
 From PV Require Import Model.Headers.
 Import ListNotations.
 Local Open Scope N_scope.
@@ -79,14 +79,542 @@ Qed.
 Lemma canon_mime_host : canon_mime host_key = host_key.
 Proof. reflexivity. Qed.
 
-(* ---------- the uri/uripost merge as the code has it now: configured headers override in-file headers ---------- *)
-Definition xa : str := [88;45;65].
-Definition w_entry : entry := {| e_method := m_get; e_uri := [47;97]; e_scheme := 0; e_urlhost := []; e_hdrs := []; e_body := [] |}.
-Definition w_gun : gun_cfg := {| g_ssl := false; g_target_host := [116]; g_resolved := [84] |}.
 
-Lemma uri_precedence_refuted :
-  exists file cfg e g k,
-    hm_get k (w_hdrs (on_wire g (effective canon_mime FUri file cfg e))) <> spec_get canon_mime FUri file cfg e k.
+(* ---------- association-list header maps ---------- *)
+Lemma str_eqb_eq : forall a b, str_eqb a b = true <-> a = b.
 Proof.
-  exists [(xa, [102])], [(xa, [99])], w_entry, w_gun, xa. vm_compute. discriminate.
+  induction a as [|x a IH]; destruct b as [|y b]; cbn; split; intro H; try reflexivity; try discriminate.
+  - apply andb_true_iff in H. destruct H as [H1 H2]. apply N.eqb_eq in H1. apply IH in H2. congruence.
+  - inversion H; subst. apply andb_true_iff. split; [apply N.eqb_refl|apply IH; reflexivity].
+Qed.
+
+Lemma str_eqb_refl : forall a, str_eqb a a = true.
+Proof. intro a. apply str_eqb_eq. reflexivity. Qed.
+
+Lemma str_eqb_neq : forall a b, str_eqb a b = false <-> a <> b.
+Proof.
+  intros a b. split; intro H.
+  - intro E. apply str_eqb_eq in E. congruence.
+  - destruct (str_eqb a b) eqn:E; [|reflexivity]. apply str_eqb_eq in E. contradiction.
+Qed.
+
+Lemma str_eqb_sym : forall a b, str_eqb a b = str_eqb b a.
+Proof.
+  intros a b. destruct (str_eqb a b) eqn:E.
+  - apply str_eqb_eq in E. subst. symmetry. apply str_eqb_refl.
+  - symmetry. apply str_eqb_neq. apply str_eqb_neq in E. congruence.
+Qed.
+
+Lemma hm_get_put : forall k k' v m,
+  hm_get k (hm_put k' v m) = if str_eqb k k' then Some v else hm_get k m.
+Proof.
+  intros k k' v m. induction m as [|[k1 v1] m IH]; cbn.
+  - destruct (str_eqb k k'); reflexivity.
+  - destruct (str_eqb k' k1) eqn:E1; cbn.
+    + apply str_eqb_eq in E1. subst k1. destruct (str_eqb k k'); reflexivity.
+    + destruct (str_eqb k k1) eqn:E2.
+      * destruct (str_eqb k k') eqn:E3; [|reflexivity].
+        apply str_eqb_eq in E2, E3. subst. rewrite str_eqb_refl in E1. discriminate.
+      * exact IH.
+Qed.
+
+Lemma hm_get_app : forall k m m',
+  hm_get k (m ++ m') = match hm_get k m with Some v => Some v | None => hm_get k m' end.
+Proof.
+  intros k m m'. induction m as [|[k1 v1] m IH]; cbn; [reflexivity|].
+  destruct (str_eqb k k1); [reflexivity|exact IH].
+Qed.
+
+Lemma hm_get_del : forall k k' m,
+  hm_get k (hm_del k' m) = if str_eqb k k' then None else hm_get k m.
+Proof.
+  intros k k' m. induction m as [|[k1 v1] m IH]; cbn.
+  - destruct (str_eqb k k'); reflexivity.
+  - destruct (str_eqb k' k1) eqn:E1.
+    + rewrite IH. apply str_eqb_eq in E1. subst k1. destruct (str_eqb k k'); reflexivity.
+    + cbn. destruct (str_eqb k k1) eqn:E2; [|exact IH].
+      destruct (str_eqb k k') eqn:E3; [|reflexivity].
+      apply str_eqb_eq in E2, E3. subst. rewrite str_eqb_refl in E1. discriminate.
+Qed.
+
+Lemma hm_get_filter : forall (q : str -> bool) k m,
+  hm_get k (filter (fun kv => q (fst kv)) m) = if q k then hm_get k m else None.
+Proof.
+  intros q k m. induction m as [|[k1 v1] m IH]; cbn.
+  - destruct (q k); reflexivity.
+  - destruct (q k1) eqn:Q1; cbn.
+    + destruct (str_eqb k k1) eqn:E.
+      * apply str_eqb_eq in E. subst. rewrite Q1. reflexivity.
+      * exact IH.
+    + rewrite IH. destruct (str_eqb k k1) eqn:E; [|reflexivity].
+      apply str_eqb_eq in E. subst. rewrite Q1. reflexivity.
+Qed.
+
+Lemma hm_get_none_notin : forall k m, hm_get k m = None <-> ~ In k (map fst m).
+Proof.
+  intros k m. induction m as [|[k1 v1] m IH]; cbn.
+  - split; [intros _ []|reflexivity].
+  - destruct (str_eqb k k1) eqn:E.
+    + apply str_eqb_eq in E. subst. split; [discriminate|intro H; exfalso; apply H; left; reflexivity].
+    + apply str_eqb_neq in E. rewrite IH. split.
+      * intros H [H1|H1]; [congruence|contradiction].
+      * intros H H1. apply H. right. exact H1.
+Qed.
+
+Definition keys (m : hmap) : list str := map fst m.
+
+Lemma keys_put_some : forall k v m x, hm_get k m = Some x -> keys (hm_put k v m) = keys m.
+Proof.
+  intros k v m x. induction m as [|[k1 v1] m IH]; cbn; [discriminate|].
+  destruct (str_eqb k k1) eqn:E; cbn.
+  - apply str_eqb_eq in E. subst. reflexivity.
+  - intro H. f_equal. apply IH, H.
+Qed.
+
+Lemma keys_put_none : forall k v m, hm_get k m = None -> keys (hm_put k v m) = keys m ++ [k].
+Proof.
+  intros k v m. induction m as [|[k1 v1] m IH]; cbn; [reflexivity|].
+  destruct (str_eqb k k1) eqn:E; cbn; [discriminate|].
+  intro H. f_equal. apply IH, H.
+Qed.
+
+Lemma nodup_snoc : forall (l : list str) k, NoDup l -> ~ In k l -> NoDup (l ++ [k]).
+Proof.
+  induction l as [|x l IH]; intros k Hn Hk; cbn.
+  - constructor; [intros []|constructor].
+  - inversion Hn; subst. constructor.
+    + intro H. apply in_app_or in H. destruct H as [H|[H|[]]]; [contradiction|].
+      subst. apply Hk. left. reflexivity.
+    + apply IH; [assumption|]. intro H. apply Hk. right. exact H.
+Qed.
+
+Lemma nodup_put : forall k v m, NoDup (keys m) -> NoDup (keys (hm_put k v m)).
+Proof.
+  intros k v m H. destruct (hm_get k m) eqn:E.
+  - rewrite (keys_put_some _ _ _ _ E). exact H.
+  - rewrite (keys_put_none _ _ _ E). apply nodup_snoc; [exact H|]. apply hm_get_none_notin, E.
+Qed.
+
+Lemma keys_del_incl : forall k m x, In x (keys (hm_del k m)) -> In x (keys m).
+Proof.
+  intros k m x. induction m as [|[k1 v1] m IH]; cbn; [tauto|].
+  destruct (str_eqb k k1); cbn; intuition.
+Qed.
+
+Lemma nodup_del : forall k m, NoDup (keys m) -> NoDup (keys (hm_del k m)).
+Proof.
+  intros k m. induction m as [|[k1 v1] m IH]; cbn; intro H; [constructor|].
+  inversion H; subst. destruct (str_eqb k k1); cbn; [apply IH; assumption|].
+  constructor; [|apply IH; assumption].
+  intro Hin. apply keys_del_incl in Hin. contradiction.
+Qed.
+
+(* ---------- everything that depends on the canonicalisation ---------- *)
+Section WithCanon.
+Variable canon : str -> str.
+Hypothesis canon_idem : forall s, canon (canon s) = canon s.
+
+Definition ckeys (m : hmap) : Prop := Forall (fun kv => canon (fst kv) = fst kv) m.
+
+Lemma ckeys_put : forall k v m, ckeys m -> ckeys (hm_put (canon k) v m).
+Proof.
+  intros k v m H. induction m as [|[k1 v1] m IH]; cbn.
+  - constructor; [cbn; apply canon_idem|constructor].
+  - inversion H; subst. destruct (str_eqb (canon k) k1).
+    + constructor; [cbn; apply canon_idem|assumption].
+    + constructor; [assumption|apply IH; assumption].
+Qed.
+
+Lemma ckeys_del : forall k m, ckeys m -> ckeys (hm_del k m).
+Proof.
+  intros k m H. induction m as [|[k1 v1] m IH]; cbn; [constructor|].
+  inversion H; subst. destruct (str_eqb k k1); [apply IH; assumption|constructor; [assumption|apply IH; assumption]].
+Qed.
+
+Lemma ckeys_set : forall m k v, ckeys m -> ckeys (hm_set canon m k v).
+Proof. intros. apply ckeys_put. assumption. Qed.
+Lemma ckeys_add : forall m k v, ckeys m -> ckeys (hm_add canon m k v).
+Proof. intros m k v H. unfold hm_add. destruct (hm_get (canon k) m) as [[a r]|]; apply ckeys_put; assumption. Qed.
+Lemma nodup_set : forall m k v, NoDup (keys m) -> NoDup (keys (hm_set canon m k v)).
+Proof. intros. apply nodup_put. assumption. Qed.
+Lemma nodup_add : forall m k v, NoDup (keys m) -> NoDup (keys (hm_add canon m k v)).
+Proof. intros m k v H. unfold hm_add. destruct (hm_get (canon k) m) as [[a r]|]; apply nodup_put; assumption. Qed.
+
+Definition wf (m : hmap) : Prop := ckeys m /\ NoDup (keys m).
+
+Lemma wf_nil : wf [].
+Proof. split; constructor. Qed.
+
+Lemma wf_fold_set : forall l m, wf m -> wf (fold_left (fun m kv => hm_set canon m (fst kv) (snd kv)) l m).
+Proof.
+  induction l as [|[k v] l IH]; intros m [H1 H2]; cbn; [split; assumption|].
+  apply IH. split; [apply ckeys_set|apply nodup_set]; assumption.
+Qed.
+
+Lemma wf_fold_add : forall l m, wf m -> wf (fold_left (fun m kv => hm_add canon m (fst kv) (snd kv)) l m).
+Proof.
+  induction l as [|[k v] l IH]; intros m [H1 H2]; cbn; [split; assumption|].
+  apply IH. split; [apply ckeys_add|apply nodup_add]; assumption.
+Qed.
+
+Lemma wf_cfg_map : forall cfg, wf (cfg_map canon cfg).
+Proof. intro cfg. apply wf_fold_add, wf_nil. Qed.
+Lemma wf_common_map : forall l, wf (common_map canon l).
+Proof. intro l. apply wf_fold_set, wf_nil. Qed.
+
+(* merge_uri: in-file headers win, configured keys only where absent *)
+Lemma merge_uri_get : forall k G C,
+  hm_get k (merge_uri C G) = match hm_get k C with Some v => Some v | None => hm_get k G end.
+Proof.
+  intros k G. unfold merge_uri. induction G as [|[k1 v1] G IH]; intros C; cbn.
+  - destruct (hm_get k C); reflexivity.
+  - rewrite IH. destruct (hm_get k1 C) eqn:E1.
+    + destruct (hm_get k C) eqn:E2; [reflexivity|].
+      destruct (str_eqb k k1) eqn:E3; [|reflexivity].
+      apply str_eqb_eq in E3. subst. congruence.
+    + rewrite hm_get_app. cbn. destruct (hm_get k C); [reflexivity|].
+      destruct (str_eqb k k1); reflexivity.
+Qed.
+
+Lemma wf_merge_uri : forall G C, wf C -> ckeys G -> wf (merge_uri C G).
+Proof.
+  unfold merge_uri. induction G as [|[k1 v1] G IH]; intros C HC HG; cbn; [assumption|].
+  inversion HG as [|? ? Hk1 HG']; subst. apply IH; [|assumption].
+  destruct (hm_get k1 C) eqn:E; [assumption|].
+  destruct HC as [HC1 HC2]. split.
+  - apply Forall_app. split; [assumption|constructor; [assumption|constructor]].
+  - unfold keys. rewrite map_app. cbn. apply nodup_snoc; [exact HC2|]. apply hm_get_none_notin, E.
+Qed.
+
+(* merge_json: entity headers Set on top of the cloned configured headers *)
+Lemma fold_set_get : forall k E M,
+  hm_get k (fold_left (fun m kv => hm_set canon m (fst kv) (snd kv)) E M) =
+  match hm_get k (fold_left (fun m kv => hm_set canon m (fst kv) (snd kv)) E []) with
+  | Some v => Some v
+  | None => hm_get k M
+  end.
+Proof.
+  intros k E. induction E as [|[k1 v1] E IH]; intros M; cbn [fold_left fst snd]; [cbn; reflexivity|].
+  rewrite IH. rewrite (IH (hm_set canon [] k1 v1)).
+  match goal with |- context [match ?x with Some _ => _ | None => _ end] => destruct x end; [reflexivity|].
+  unfold hm_set. rewrite !hm_get_put. cbn. destruct (str_eqb k (canon k1)); reflexivity.
+Qed.
+
+(* EnrichRequestWithHeaders *)
+Lemma enrich_get : forall h r k, ckeys h ->
+  hm_get k (r_hdrs (enrich canon r h)) =
+  match hm_get k (r_hdrs r) with
+  | Some v => Some v
+  | None => if str_eqb k host_key then None else hm_get k h
+  end.
+Proof.
+  unfold enrich. induction h as [|[k1 v1] h IH]; intros r k Hc; cbn [fold_left].
+  - cbn. destruct (hm_get k (r_hdrs r)); [reflexivity|]. destruct (str_eqb k host_key); reflexivity.
+  - inversion Hc as [|? ? Hk1 Hc']; subst. cbn [fst] in Hk1.
+    rewrite IH by assumption. unfold enrich_one. cbn [fst snd]. rewrite Hk1.
+    destruct (hm_get k1 (r_hdrs r)) eqn:E1.
+    + destruct (hm_get k (r_hdrs r)) eqn:E2; [reflexivity|].
+      destruct (str_eqb k host_key); [reflexivity|]. cbn.
+      destruct (str_eqb k k1) eqn:E3; [|reflexivity]. apply str_eqb_eq in E3. subst. congruence.
+    + destruct (str_eqb k1 host_key) eqn:EH.
+      * assert (Hh : r_hdrs (if is_nil (r_host r) then with_host r (fst v1) else r) = r_hdrs r)
+          by (destruct (is_nil (r_host r)); reflexivity).
+        rewrite Hh. destruct (hm_get k (r_hdrs r)); [reflexivity|].
+        destruct (str_eqb k host_key) eqn:E4; [reflexivity|]. cbn.
+        destruct (str_eqb k k1) eqn:E3; [|reflexivity].
+        apply str_eqb_eq in E3. subst. congruence.
+      * cbn [with_hdrs r_hdrs]. rewrite hm_get_app. cbn.
+        destruct (hm_get k (r_hdrs r)); [reflexivity|].
+        destruct (str_eqb k k1) eqn:E3.
+        -- apply str_eqb_eq in E3. subst. rewrite EH. reflexivity.
+        -- reflexivity.
+Qed.
+
+Definition host_of (h : hmap) : str := match hm_get host_key h with Some (v, _) => v | None => [] end.
+
+Lemma enrich_host : forall h r, ckeys h -> NoDup (keys h) -> hm_get host_key (r_hdrs r) = None ->
+  r_host (enrich canon r h) = if is_nil (r_host r) then host_of h else r_host r.
+Proof.
+  unfold enrich. induction h as [|[k1 v1] h IH]; intros r Hc Hn Hr; cbn [fold_left].
+  - unfold host_of. cbn. destruct (r_host r); reflexivity.
+  - inversion Hc as [|? ? Hk1 Hc']; subst. cbn [fst] in Hk1.
+    inversion Hn as [|? ? Hnot Hn']; subst.
+    unfold enrich_one at 2. cbn [fst snd]. rewrite Hk1.
+    destruct (hm_get k1 (r_hdrs r)) eqn:E1.
+    + rewrite IH by assumption.
+      assert (Hne : str_eqb host_key k1 = false).
+      { apply str_eqb_neq. intro; subst. congruence. }
+      unfold host_of. cbn [hm_get]. rewrite Hne. reflexivity.
+    + destruct (str_eqb k1 host_key) eqn:EH.
+      * apply str_eqb_eq in EH. subst k1.
+        assert (Hh0 : hm_get host_key h = None) by (apply hm_get_none_notin; exact Hnot).
+        destruct (is_nil (r_host r)) eqn:En.
+        -- rewrite IH by assumption. cbn [with_host r_host].
+           unfold host_of at 2. cbn [hm_get]. rewrite str_eqb_refl. destruct v1 as [a rest]. cbn [fst].
+           unfold host_of. rewrite Hh0. destruct a; reflexivity.
+        -- rewrite IH by assumption. rewrite En. reflexivity.
+      * rewrite IH; [| assumption | assumption |].
+        -- cbn [with_hdrs r_host]. unfold host_of. cbn [hm_get].
+           rewrite (str_eqb_sym host_key k1), EH. reflexivity.
+        -- cbn [with_hdrs r_hdrs]. rewrite hm_get_app, Hr. cbn [hm_get].
+           rewrite (str_eqb_sym host_key k1), EH. reflexivity.
+Qed.
+
+Lemma enrich_nodup : forall h r, ckeys h -> NoDup (keys (r_hdrs r)) -> NoDup (keys (r_hdrs (enrich canon r h))).
+Proof.
+  unfold enrich. induction h as [|[k1 v1] h IH]; intros r Hc Hn; cbn [fold_left]; [assumption|].
+  inversion Hc as [|? ? Hk1 Hc']; subst. cbn [fst] in Hk1.
+  apply IH; [assumption|]. unfold enrich_one. cbn [fst snd]. rewrite Hk1.
+  destruct (hm_get k1 (r_hdrs r)) eqn:E1; [assumption|].
+  destruct (str_eqb k1 host_key).
+  - destruct (is_nil (r_host r)); assumption.
+  - cbn [with_hdrs r_hdrs]. unfold keys. rewrite map_app. cbn. apply nodup_snoc; [exact Hn|].
+    apply hm_get_none_notin, E1.
+Qed.
+
+Lemma enrich_fixed : forall h r,
+  r_method (enrich canon r h) = r_method r /\ r_uri (enrich canon r h) = r_uri r /\ r_body (enrich canon r h) = r_body r.
+Proof.
+  unfold enrich. induction h as [|[k1 v1] h IH]; intros r; cbn [fold_left]; [auto|].
+  destruct (IH (enrich_one canon r (k1, v1))) as (A & B & C). rewrite A, B, C.
+  unfold enrich_one. cbn [fst snd].
+  destruct (hm_get (canon k1) (r_hdrs r)); [auto|].
+  destruct (str_eqb (canon k1) host_key); [destruct (is_nil (r_host r)); auto|auto].
+Qed.
+
+End WithCanon.
+
+(* ---------- the four formats against the format-independent specification ---------- *)
+Section Formats.
+Variable canon : str -> str.
+Hypothesis canon_idem : forall s, canon (canon s) = canon s.
+
+Lemma wf_cfg : forall cfg, wf canon (cfg_map canon cfg).
+Proof. intro cfg. apply wf_cfg_map. exact canon_idem. Qed.
+
+Lemma wf_uri : forall file cfg, wf canon (merge_uri (common_map canon file) (cfg_map canon cfg)).
+Proof.
+  intros file cfg. apply wf_merge_uri.
+  - apply wf_common_map. exact canon_idem.
+  - apply (proj1 (wf_cfg cfg)).
+Qed.
+
+Lemma wf_json : forall cfg E, wf canon (merge_json canon (cfg_map canon cfg) E).
+Proof. intros cfg E. unfold merge_json. apply wf_fold_set; [exact canon_idem|apply wf_cfg]. Qed.
+
+Lemma raw_nodup : forall e, NoDup (keys (r_hdrs (read_request canon e))).
+Proof.
+  intro e. cbn [read_request r_hdrs]. apply nodup_del.
+  apply (proj2 (wf_fold_add canon canon_idem (e_hdrs e) [] (wf_nil canon))).
+Qed.
+
+Lemma raw_nohost : forall e, hm_get host_key (r_hdrs (read_request canon e)) = None.
+Proof. intro e. cbn [read_request r_hdrs]. rewrite hm_get_del, str_eqb_refl. reflexivity. Qed.
+
+Lemma effective_shape : forall f file cfg e,
+  exists r0 h, effective canon f file cfg e = enrich canon r0 h /\ wf canon h /\
+    NoDup (keys (r_hdrs r0)) /\ hm_get host_key (r_hdrs r0) = None /\
+    r_method r0 = spec_method f e /\ r_uri r0 = e_uri e /\ r_body r0 = spec_body f e.
+Proof.
+  intros f file cfg e. destruct f; cbn [effective].
+  - eexists _, _. split; [reflexivity|]. split; [apply wf_uri|]. repeat split; cbn; constructor.
+  - eexists _, _. split; [reflexivity|]. split; [apply wf_uri|]. repeat split; cbn; constructor.
+  - eexists _, _. split; [reflexivity|]. split; [apply wf_json|]. repeat split; cbn; constructor.
+  - eexists _, _. split; [reflexivity|]. split; [apply wf_cfg|].
+    split; [apply raw_nodup|]. split; [apply raw_nohost|]. repeat split.
+Qed.
+
+(* C09_precedence: for every key, the header map on the wire is the entry's own definition where it has one,
+   else the configured values, and never a Host entry. *)
+Lemma precedence : forall f file cfg e g k,
+  hm_get k (w_hdrs (on_wire g (effective canon f file cfg e))) = spec_get canon f file cfg e k.
+Proof.
+  intros f file cfg e g k. cbn [on_wire w_hdrs]. unfold spec_get.
+  destruct f; cbn [effective entry_defined].
+  - rewrite enrich_get by (apply (proj1 (wf_uri file cfg))).
+    cbn [new_request r_hdrs hm_get]. rewrite merge_uri_get. reflexivity.
+  - rewrite enrich_get by (apply (proj1 (wf_uri file cfg))).
+    cbn [new_request r_hdrs hm_get]. rewrite merge_uri_get. reflexivity.
+  - rewrite enrich_get by (apply (proj1 (wf_json cfg (e_hdrs e)))).
+    cbn [new_request r_hdrs hm_get]. unfold merge_json. rewrite fold_set_get. reflexivity.
+  - rewrite enrich_get by (apply (proj1 (wf_cfg cfg))).
+    cbn [read_request r_hdrs]. rewrite hm_get_del.
+    destruct (str_eqb k host_key); reflexivity.
+Qed.
+
+Lemma spec_hdrs_get : forall f file cfg e k,
+  hm_get k (spec_hdrs canon f file cfg e) = spec_get canon f file cfg e k.
+Proof.
+  intros f file cfg e k. unfold spec_hdrs, spec_get.
+  set (ed := entry_defined canon f file e).
+  rewrite hm_get_app.
+  rewrite (hm_get_filter (fun k' => match hm_get k' (hm_del host_key ed) with Some _ => false | None => negb (str_eqb k' host_key) end)).
+  rewrite !hm_get_del. destruct (str_eqb k host_key) eqn:EH; [reflexivity|].
+  destruct (hm_get k ed); reflexivity.
+Qed.
+
+(* the header map on the wire has no shadowed entries: what is printed is what hm_get sees *)
+Lemma wire_hdrs_nodup : forall f file cfg e g,
+  NoDup (keys (w_hdrs (on_wire g (effective canon f file cfg e)))).
+Proof.
+  intros f file cfg e g. cbn [on_wire w_hdrs].
+  destruct (effective_shape f file cfg e) as (r0 & h & -> & [Hc Hn] & Hn0 & _).
+  apply enrich_nodup; assumption.
+Qed.
+
+Lemma passthrough_fixed : forall f file cfg e g,
+  let w := on_wire g (effective canon f file cfg e) in
+  w_method w = spec_method f e /\ w_uri w = e_uri e /\ w_body w = spec_body f e /\
+  w_tls w = g_ssl g /\ w_addr w = g_resolved g.
+Proof.
+  intros f file cfg e g. cbn [on_wire w_method w_uri w_body w_tls w_addr].
+  destruct (effective_shape f file cfg e) as (r0 & h & -> & _ & _ & _ & Hm & Hu & Hb).
+  destruct (enrich_fixed canon h r0) as (A & B & C). rewrite A, B, C. auto.
+Qed.
+
+Lemma passthrough : forall f file cfg e g,
+  let w := on_wire g (effective canon f file cfg e) in
+  w_method w = spec_method f e /\ w_uri w = e_uri e /\ w_body w = spec_body f e /\
+  w_tls w = g_ssl g /\ w_addr w = g_resolved g /\
+  (forall k vs, str_eqb k host_key = false -> hm_get k (entry_defined canon f file e) = Some vs -> hm_get k (w_hdrs w) = Some vs).
+Proof.
+  intros f file cfg e g w.
+  destruct (passthrough_fixed f file cfg e g) as (A & B & C & D & E).
+  repeat split; try assumption.
+  intros k vs Hk Hd. unfold w. rewrite precedence. unfold spec_get. rewrite Hk, Hd. reflexivity.
+Qed.
+
+Lemma configured_iff : forall f file cfg e g k vs,
+  str_eqb k host_key = false -> hm_get k (cfg_map canon cfg) = Some vs ->
+  (hm_get k (w_hdrs (on_wire g (effective canon f file cfg e))) = Some vs /\ hm_get k (entry_defined canon f file e) = None)
+  \/ (exists ws, hm_get k (entry_defined canon f file e) = Some ws /\
+                 hm_get k (w_hdrs (on_wire g (effective canon f file cfg e))) = Some ws).
+Proof.
+  intros f file cfg e g k vs Hk Hcfg. rewrite precedence. unfold spec_get. rewrite Hk.
+  destruct (hm_get k (entry_defined canon f file e)) as [ws|].
+  - right. exists ws. split; reflexivity.
+  - left. split; [exact Hcfg|reflexivity].
+Qed.
+
+(* Host. The guard excludes only an entry whose own Host header is present with an EMPTY value. *)
+Definition host_guard (f : fmt) (file : list (str * str)) (e : entry) : Prop :=
+  entry_host canon f file e <> Some [].
+
+Lemma merge_uri_host : forall C G,
+  host_of (merge_uri C G) = match hm_get host_key C with Some (v, _) => v | None => host_of G end.
+Proof. intros C G. unfold host_of. rewrite merge_uri_get. destruct (hm_get host_key C) as [[v r]|]; reflexivity. Qed.
+
+Lemma merge_json_host : forall G E,
+  host_of (merge_json canon G E) =
+  match hm_get host_key (fold_left (fun m kv => hm_set canon m (fst kv) (snd kv)) E []) with
+  | Some (v, _) => v | None => host_of G end.
+Proof.
+  intros G E. unfold host_of, merge_json. rewrite fold_set_get.
+  match goal with |- context [hm_get host_key (fold_left ?f E [])] => destruct (hm_get host_key (fold_left f E [])) as [[v r]|] end; reflexivity.
+Qed.
+
+Lemma host_rule : forall f file cfg e g, host_guard f file e ->
+  w_host (on_wire g (effective canon f file cfg e)) = spec_host canon f file cfg e g.
+Proof.
+  intros f file cfg e g Hg. cbn [on_wire w_host]. unfold spec_host, host_guard, entry_host in *.
+  fold (host_of (cfg_map canon cfg)).
+  destruct f; cbn [effective entry_defined] in *.
+  - rewrite enrich_host; [|apply (proj1 (wf_uri file cfg))|apply (proj2 (wf_uri file cfg))|reflexivity].
+    cbn [new_request r_host]. rewrite merge_uri_host.
+    destruct (is_nil (e_urlhost e)) eqn:En; [|cbv iota; rewrite ?En; reflexivity].
+    destruct (hm_get host_key (common_map canon file)) as [[v r]|]; reflexivity.
+  - rewrite enrich_host; [|apply (proj1 (wf_uri file cfg))|apply (proj2 (wf_uri file cfg))|reflexivity].
+    cbn [new_request r_host]. rewrite merge_uri_host.
+    destruct (is_nil (e_urlhost e)) eqn:En; [|cbv iota; rewrite ?En; reflexivity].
+    destruct (hm_get host_key (common_map canon file)) as [[v r]|]; reflexivity.
+  - rewrite enrich_host; [|apply (proj1 (wf_json cfg (e_hdrs e)))|apply (proj2 (wf_json cfg (e_hdrs e)))|reflexivity].
+    cbn [new_request r_host]. rewrite merge_json_host.
+    destruct (is_nil (e_urlhost e)) eqn:En; [|cbv iota; rewrite ?En; reflexivity].
+    match goal with |- context [match ?x with Some _ => _ | None => _ end] => destruct x as [[v r]|] end; reflexivity.
+  - rewrite enrich_host; [|apply (proj1 (wf_cfg cfg))|apply (proj2 (wf_cfg cfg))|apply raw_nohost].
+    cbn [read_request r_host].
+    destruct (is_nil (e_urlhost e)) eqn:En; [|cbv iota; rewrite ?En; reflexivity].
+    match goal with |- context [match ?x with Some _ => _ | None => _ end] => destruct x as [[v r]|] end.
+    + destruct v as [|c v']; [exfalso; apply Hg; reflexivity|]. reflexivity.
+    + reflexivity.
+Qed.
+
+(* what happens in the excluded corner: the entry's own Host header is present but empty *)
+Lemma host_empty_corner : forall f file cfg e g, entry_host canon f file e = Some [] ->
+  w_host (on_wire g (effective canon f file cfg e)) =
+  match f with
+  | FRaw => let c := host_of (cfg_map canon cfg) in if is_nil c then g_target_host g else c
+  | _ => g_target_host g
+  end.
+Proof.
+  intros f file cfg e g Hg. cbn [on_wire w_host]. unfold entry_host in Hg.
+  destruct (is_nil (e_urlhost e)) eqn:En.
+  2:{ injection Hg as Hg. rewrite Hg in En. discriminate. }
+  destruct f; cbn [effective entry_defined] in *.
+  - rewrite enrich_host; [|apply (proj1 (wf_uri file cfg))|apply (proj2 (wf_uri file cfg))|reflexivity].
+    cbn [new_request r_host]. rewrite En, merge_uri_host.
+    destruct (hm_get host_key (common_map canon file)) as [[v r]|]; [|discriminate].
+    injection Hg as ->. reflexivity.
+  - rewrite enrich_host; [|apply (proj1 (wf_uri file cfg))|apply (proj2 (wf_uri file cfg))|reflexivity].
+    cbn [new_request r_host]. rewrite En, merge_uri_host.
+    destruct (hm_get host_key (common_map canon file)) as [[v r]|]; [|discriminate].
+    injection Hg as ->. reflexivity.
+  - rewrite enrich_host; [|apply (proj1 (wf_json cfg (e_hdrs e)))|apply (proj2 (wf_json cfg (e_hdrs e)))|reflexivity].
+    cbn [new_request r_host]. rewrite En, merge_json_host.
+    match goal with H : match ?x with Some _ => _ | None => _ end = _ |- _ => destruct x as [[v r]|] end; [|discriminate].
+    injection Hg as ->. reflexivity.
+  - rewrite enrich_host; [|apply (proj1 (wf_cfg cfg))|apply (proj2 (wf_cfg cfg))|apply raw_nohost].
+    cbn [read_request r_host]. rewrite En.
+    match goal with H : match ?x with Some _ => _ | None => _ end = _ |- _ => destruct x as [[v r]|] end; [|discriminate].
+    injection Hg as ->. reflexivity.
+Qed.
+
+(* whole files: every entry, with the in-file headers in scope at its position *)
+Definition wire_equiv (a b : wire) : Prop :=
+  w_tls a = w_tls b /\ w_addr a = w_addr b /\ w_method a = w_method b /\ w_uri a = w_uri b /\
+  w_host a = w_host b /\ w_body a = w_body b /\ (forall k, hm_get k (w_hdrs a) = hm_get k (w_hdrs b)).
+
+Fixpoint items_guard (f : fmt) (common : list (str * str)) (items : list item) : Prop :=
+  match items with
+  | [] => True
+  | IHdr k v :: r => items_guard f (common ++ [(k, v)]) r
+  | IEntry e :: r => host_guard f common e /\ items_guard f common r
+  end.
+
+Lemma entry_equiv : forall f file cfg e g, host_guard f file e ->
+  wire_equiv (on_wire g (effective canon f file cfg e)) (spec_wire canon f file cfg e g).
+Proof.
+  intros f file cfg e g Hg.
+  destruct (passthrough_fixed f file cfg e g) as (A & B & C & D & E).
+  unfold wire_equiv. cbn [spec_wire w_tls w_addr w_method w_uri w_host w_body w_hdrs].
+  repeat split; try assumption.
+  - apply host_rule, Hg.
+  - intro k. rewrite spec_hdrs_get. apply precedence.
+Qed.
+
+Lemma file_equiv : forall f cfg g items common, items_guard f common items ->
+  Forall2 wire_equiv (map (on_wire g) (file_requests canon f cfg common items)) (file_spec canon f cfg common g items).
+Proof.
+  intros f cfg g. induction items as [|[k v|e] items IH]; intros common Hg; cbn.
+  - constructor.
+  - apply IH. exact Hg.
+  - destruct Hg as [H1 H2]. constructor; [apply entry_equiv, H1|apply IH, H2].
+Qed.
+
+End Formats.
+
+(* ---------- keep-alive, gun side ---------- *)
+Lemma shoot_body_closed : forall ok, exists pre, shoot_body_events (RespOk ok) = pre ++ [BodyClosed].
+Proof. intros [|]; eexists [_]; reflexivity. Qed.
+
+Lemma shoot_body_drained : shoot_body_events (RespOk true) = [BodyDrained; BodyClosed].
+Proof. reflexivity. Qed.
+
+Lemma gun_client_own_injective : forall n i j, gun_client false n i = gun_client false n j -> i = j.
+Proof. intros n i j H. cbn in H. congruence. Qed.
+
+Lemma gun_client_shared_bound : forall n i, exists s, gun_client true n i = PoolClient s /\ (s < Nat.max 1 n)%nat.
+Proof.
+  intros n i. cbn [gun_client]. eexists. split; [reflexivity|].
+  apply Nat.mod_upper_bound. destruct n; cbn; lia.
 Qed.
